@@ -57,6 +57,22 @@ def case_reader(case):
     if ref != recs:
         res["unmodelled"] = "csv.writer/csv.reader do not round-trip this record list in this dialect"
         return res
+    # the csv model: the text csv.writer wrote, and what the repo's reader (csv.reader over a text-mode file) yields
+    cm = driver.ask({"op": "csv", "delim": case["delim"], "quote": case["quote"], "limit": csv.field_size_limit(), "recs": recs})
+    with open(path, "r", encoding="utf-8", newline="") as f:
+        written = f.read()
+    if cm["text"] != written:
+        res["disagree"].append({"what": "csv model: the writer's text", "real": written, "model": cm["text"]})
+    from csvpath.util.file_readers import DataFileReader
+
+    try:
+        real_recs = [list(r_) for r_ in DataFileReader(path, delimiter=case["delim"], quotechar=case["quote"]).next()]
+    except csv.Error:
+        real_recs = None
+    if cm["read"] != real_recs:
+        res["disagree"].append({"what": "csv model: the reader's records", "real": real_recs, "model": cm["read"]})
+    if real_recs != recs:
+        res["oracle"].append({"what": "the records the reader yields differ from the records written", "got": real_recs, "want": recs})
     out, p = real_run.run_single(f"${path}[*][yes()]", "collect", delimiter=case["delim"], quotechar=case["quote"], policy=["collect"])
     if "parse_error" in out or out.get("raised"):
         res["oracle"].append({"what": "reading the file failed", "error": out.get("parse_error") or out.get("raised")})
@@ -133,4 +149,66 @@ def case_reader(case):
         res["nontrivial"] = len(data) >= 2 and any(len(row) < len(first) for row in data)
     else:
         res["nontrivial"] = len(want) >= 2
+    return res
+
+
+# ---- the csv model on text that csv.writer would not write (correspondence only: stray quotes, carriage returns, open quoted
+# fields, a last line without a line end, a small field size limit) ----
+RAW_PLAIN = list("ab1 .") + ["é", "日", "\u2028", "\x0b", "\x1c", "\x85"]
+
+
+def gen_raw(seed, i):
+    r = rng(seed, "reader-raw", i)
+    delim = r.choice(DELIMS)
+    quote = r.choice(QUOTES)
+    other_quote = "'" if quote == '"' else '"'
+    toks = []
+    for _ in range(r.randint(0, 30)):
+        k = r.random()
+        if k < 0.35:
+            toks.append(r.choice(RAW_PLAIN))
+        elif k < 0.5:
+            toks.append(delim)
+        elif k < 0.68:
+            toks.append(quote)
+        elif k < 0.74:
+            toks.append(quote + quote)
+        elif k < 0.86:
+            toks.append("\n")
+        elif k < 0.91:
+            toks.append("\r")
+        elif k < 0.95:
+            toks.append("\r\n")
+        else:
+            toks.append(r.choice([other_quote, r.choice([d_ for d_ in DELIMS if d_ != delim])]))
+    text = "".join(toks)
+    if r.random() < 0.6 and not text.endswith("\n"):
+        text += "\n"
+    return {"text": text, "delim": delim, "quote": quote, "limit": r.choice([None, None, None, 1, 2, 4])}
+
+
+def case_raw(case):
+    import csv
+    import real_run  # noqa: F401  (enters the private working directory)
+    from csvpath.util.file_readers import DataFileReader
+
+    path = "data/raw.csv"
+    with open(path, "w", encoding="utf-8", newline="") as f:
+        f.write(case["text"])
+    res = {"case": case, "disagree": [], "oracle": [], "nontrivial": False}
+    old = csv.field_size_limit()
+    limit = case["limit"] if case["limit"] is not None else old
+    csv.field_size_limit(limit)
+    try:
+        try:
+            real = [list(r_) for r_ in DataFileReader(path, delimiter=case["delim"], quotechar=case["quote"]).next()]
+        except csv.Error:
+            real = None
+    finally:
+        csv.field_size_limit(old)
+    m = driver.ask({"op": "csvread", "delim": case["delim"], "quote": case["quote"], "limit": limit, "text": case["text"]})
+    if m["read"] != real:
+        res["disagree"].append({"what": "csv model: the reader's records on arbitrary text", "real": real, "model": m["read"]})
+    res["error"] = real is None
+    res["nontrivial"] = real is not None and len(real) >= 2 and case["quote"] in case["text"]
     return res
